@@ -532,6 +532,80 @@ def _resolve_conservation(ck):
     ck.floor("C08.5 separating paths", n_sep, 2)
 
 
+def _segments_owner(t):
+    """P when `t` is P.segments, possibly with its empty segments filtered out (an empty segment has no pair and no score: the
+    filtered list describes the same record)"""
+    if t[0] == "attr" and t[2] == "segments":
+        return t[1]
+    if t[0] == "comp" and t[1] in ("list", "gen") and len(t[3]) == 1 and t[2][0] == "bv":
+        it, ifs = t[3][0]
+        if len(ifs) == 1 and ifs[0] in (T.mk_not(T.mk_attr(t[2], "empty")),) and it[0] == "attr" and it[2] == "segments":
+            return it[1]
+    if t[0] == "call" and t[1] == "list" and len(t[2]) == 1:
+        return _segments_owner(t[2][0])
+    return None
+
+
+def _joined_segments(ck, fn, w, src, resolution, pl, pr, facts):
+    """What the joined row is made of.  F = the earlier part (its segment pl[1] is the left one of the conflict pair), S = the
+    later part.  Two things are decided on the list handed to AlignmentResultRow.create:
+
+    C08.6  only-resolved: whatever is in the list besides the two resolved segments is F.segments[:-1] in front of them and
+           S.segments[1:] behind them, with F's *last* segment as the left one of the pair (anything else puts segments next to
+           each other that were never checked against each other, or out of reference order);
+    C08.10 parts-kept: every segment of both parts reaches the joined row - either in that shape, or because both parts are known
+           to hold exactly one segment.  Resolving `segments[0]` of each part and dropping the rest loses the pairs of every further
+           segment, although the union of the two parts may be a perfectly valid matching."""
+    ck.clause("C08.10", "a joined record keeps every segment of both parts (when their union is a valid matching it is exactly the union)")
+    F, S = pl[0], pr[0]
+    res0, res1 = T.mk_idx(resolution, C(0)), T.mk_idx(resolution, C(1))
+    items = list(src[1]) if src[0] in ("list", "tuple") else None
+    parts = list(src[1]) if src[0] == "concat" else [src]
+    flat = []
+    for x in parts:
+        if x[0] in ("list", "tuple"):
+            flat.extend(("elt", y) for y in x[1])
+        else:
+            flat.append(("seq", x))
+    elts = [y for k, y in flat if k == "elt"]
+    if sorted(map(T.key, elts)) != sorted(map(T.key, [res0, res1])):
+        ck.violation("C08.6", "AlignmentResultRow.resolve:only-resolved", w, "the joined row is built around the two segments that "
+                     "went through conflict resolution", found=T.show(src)[:200], required="[seg1, seg2] of pair.resolveConflict()")
+        return
+    seqs = [(i, y) for i, (k, y) in enumerate(flat) if k == "seq"]
+    first_res = min(i for i, (k, y) in enumerate(flat) if k == "elt")
+    before = [y for i, y in seqs if i < first_res]
+    after = [y for i, y in seqs if i > first_res]
+    def is_before(x):
+        return x[0] == "slice" and _segments_owner(x[1]) == F and x[2:] == (T.NONE, C(-1), T.NONE)
+
+    def is_after(x):
+        return x[0] == "slice" and _segments_owner(x[1]) == S and x[2:] == (C(1), T.NONE, T.NONE)
+    want_before, want_after = "F[:-1]", "S[1:]"
+    before = [want_before if is_before(x) else x for x in before]
+    after = [want_after if is_after(x) else x for x in after]
+    shape_ok = before in ([], [want_before]) and after in ([], [want_after]) and (not before or pl[1] == -1) and \
+        (pl[1] == 0 or before == [want_before] or not seqs)
+    if seqs:
+        ck.judge(shape_ok and pl[1] == -1, "C08.6", "AlignmentResultRow.resolve:only-resolved", w,
+                 "segments kept besides the two resolved ones are the earlier part's segments before its last one (in front) and the "
+                 "later part's segments after its first one (behind); the pair resolved is (earlier.segments[-1], later.segments[0]) - "
+                 "nothing is put next to a segment it was not checked against, nothing out of reference order",
+                 found=T.show(src)[:240], required="earlier.segments[:-1] + [seg1, seg2] + later.segments[1:]")
+    else:
+        ck.ok("C08.6", "AlignmentResultRow.resolve:only-resolved", w, "the joined row holds the two resolved segments only")
+
+    def single(P):
+        n_ = T.mk_call("len", [T.mk_attr(P, "segments")])
+        return facts.get(T.mk_eq(n_, C(1))) is True or facts.get(T.mk_lt(C(1), n_)) is False or facts.get(T.mk_le(n_, C(1))) is True
+    complete = (before == [want_before] or single(F)) and (after == [want_after] or single(S)) and (pl[1] == -1 or single(F))
+    ck.judge(complete, "C08.10", "AlignmentResultRow.resolve:parts-kept", w,
+             "every segment of both parts reaches the joined record (a part with several segments is not cut down to its first one)",
+             found=f"joined segments = {T.show(src)[:160]} with the pair ({T.show(T.mk_idx(T.mk_attr(F, 'segments'), C(pl[1])))[-40:]}, "
+                   f"{T.show(T.mk_idx(T.mk_attr(S, 'segments'), C(0)))[-40:]}); nothing else of either part is kept",
+             required="earlier.segments[:-1] + [seg1, seg2] + later.segments[1:]  (or parts known to hold one segment each)")
+
+
 def _joined_row(ck):
     ctx = ck.ctx
     p = ctx.p
@@ -577,15 +651,12 @@ def _joined_row(ck):
                          "segments of the joined row do not come from conflict resolution of the parts",
                          found=T.show(segs)[:200] if segs else "None", required="pair.resolveConflict() of the two first segments")
             continue
-        # exactly the two results of the resolution (minus empty ones) make up the joined row
         inner_list = dict(segs[2]).get("segments") if segs[0] == "new" and segs[2] else (list(dict(segs[3]).values())[0] if segs[0] == "app" and segs[3] else None)
+        src0 = None
         if inner_list is not None and inner_list[0] == "comp" and len(inner_list[3]) == 1:
-            src = inner_list[3][0][0]
-            extra_src = src[0] == "concat" or (src[0] in ("list", "tuple") and len(src[1]) != 2)
-            ck.judge(not extra_src, "C08.6", "AlignmentResultRow.resolve:only-resolved", w,
-                     "the joined row consists of the two segments that went through conflict resolution - nothing is appended that "
-                     "was not checked against them (its pairs would be out of order or shared)",
-                     found=T.show(src)[:200], required="[seg1, seg2] of pair.resolveConflict()")
+            src0 = inner_list[3][0][0]
+        elif inner_list is not None and inner_list[0] in ("list", "concat"):
+            src0 = inner_list
         pair = resolves[0][1] if resolves[0][0] == "mcall" else resolves[0][2]
         if not (pair[0] == "app" and pair[1].endswith(".checkForConflicts")):
             raise AnalysisError(f"{w}: conflict pair is not built by checkForConflicts: {T.show(pair)[:160]}")
@@ -594,21 +665,34 @@ def _joined_row(ck):
                        T.mk_attr(T.mk_attr(T.mk_idx(T.mk_attr(other, "alignedPairs"), C(0)), "reference"), "position"))
         pc, pol = T.positive(cond)
         cases = []
-        if left0[0] == "select" or right0[0] == "select":
-            # the order is chosen by a conditional expression: one case per outcome of its test
-            sel = left0 if left0[0] == "select" else right0
+        sels = [x for x in list(T.subterms(left0)) + list(T.subterms(right0)) if x[0] == "select"]
+        if sels:
+            # the order is chosen by a conditional expression (possibly `a, b = (x, y) if c else (y, x)`): one case per outcome
+            sel = sels[0]
             sc, spol = T.positive(sel[1])
             for tvc in (True, False):
                 f2 = dict(pa.facts)
                 f2[sc] = tvc
-                cases.append((T.specialize(left0, {sc: tvc}), T.specialize(right0, {sc: tvc}), f2))
+                cases.append((T.specialize(left0, {sc: tvc}), T.specialize(right0, {sc: tvc}), f2,
+                              T.specialize(src0, {sc: tvc}) if src0 is not None else None, T.specialize(resolves[0], {sc: tvc})))
             n += 1
         else:
-            cases.append((left0, right0, dict(pa.facts)))
-        for left, right, facts in cases:
-            ck.judge({left, right} == {first_self, first_other}, "C08.6", "AlignmentResultRow.resolve:parts", w,
-                     "the join resolves conflicts between the first segment of each part", found=f"{T.show(left)} / {T.show(right)}",
-                     required="self.segments[0] and other.segments[0]")
+            cases.append((left0, right0, dict(pa.facts), src0, resolves[0]))
+        for left, right, facts, src, resolution in cases:
+            def part_of(t):
+                if t[0] == "idx" and t[2][0] == "c" and isinstance(t[2][1], int):
+                    P = _segments_owner(t[1])
+                    if P is not None:
+                        return P, t[2][1]
+                return None
+            pl, pr = part_of(left), part_of(right)
+            ok_parts = pl is not None and pr is not None and {pl[0], pr[0]} == {V(fn.self_name), other} and pr[1] == 0 and pl[1] in (0, -1)
+            ck.judge(ok_parts, "C08.6", "AlignmentResultRow.resolve:parts", w,
+                     "the conflict pair is made of one segment of each part: the first segment of the later part against the first "
+                     "(pinned tree) or last (the facing) segment of the earlier part", found=f"{T.show(left)} / {T.show(right)}",
+                     required="<earlier>.segments[0 or -1] and <later>.segments[0]")
+            if ok_parts and src is not None:
+                _joined_segments(ck, fn, w, src, resolution, pl, pr, facts)
             # earlier part on the left
             tv = facts.get(pc)
             if tv is None:
@@ -619,7 +703,7 @@ def _joined_row(ck):
                              "reference position", found=pa.describe()[:200], required="earlier part as left segment")
             else:
                 self_first = (tv == pol)
-                ck.judge((left == first_self) == self_first, "C08.6", f"AlignmentResultRow.resolve:order:{'self' if self_first else 'other'}-first",
+                ck.judge(((pl[0] == V(fn.self_name)) if pl else (left == first_self)) == self_first, "C08.6", f"AlignmentResultRow.resolve:order:{'self' if self_first else 'other'}-first",
                          w, "the part that starts earlier on the reference is the left segment of the conflict pair",
                          found=f"left = {T.show(left)} when self starts {'earlier' if self_first else 'later or equal'}",
                          required="left = the earlier part")
